@@ -15,6 +15,7 @@ import pyerrors as pe
 
 from harness import gen
 from harness.jsonsafe import rat
+from harness.frames import snap, frame_event
 from harness.pe_project import project_any, project_obs, project_exc
 
 RULE = ('cases = (expression tree | operator-table entry | complex expression | array-mode function) x layout class x evaluation mode; '
@@ -70,7 +71,7 @@ def expr_cases(rng, n, ctx, tag, classes=None, with_cov_frac=0.25):
     classes = classes or gen.LAYOUT_CLASSES
     i = 0
     attempts = 0
-    while len(cases) < n and attempts < 20 * n:
+    while sum(1 for c in cases if c['ev'] != 'frame') < n and attempts < 20 * n:
         attempts += 1
         cls = classes[i % len(classes)]
         k = int(rng.integers(1, 4))
@@ -86,6 +87,7 @@ def expr_cases(rng, n, ctx, tag, classes=None, with_cov_frac=0.25):
         if with_cov and mode == 'num':
             mode = 'auto'
         cid = '%s-%04d-%s-%s' % (tag, i, cls, mode)
+        before = snap(ops)
 
         def f(x, **kw):
             return gen.ev(e, x, anp)
@@ -100,6 +102,8 @@ def expr_cases(rng, n, ctx, tag, classes=None, with_cov_frac=0.25):
             grad = jacobian(lambda x: gen.ev(e, x, anp))(np.array(vals))
             res = _call(lambda: pe.derived_observable(f, ops, man_grad=list(np.asarray(grad).reshape(-1))))
         cases.append(_case(cid, 'expr', mode, e, ops, res))
+        if i % 3 == 0:
+            cases.append(frame_event(cid + '-frame', 'the operands of an expression are left as they were', before, ops))
         ctx.nontrivial.add((gen.expr_str(e), cls, mode))
         ctx.sample({'id': cid, 'expression': gen.expr_str(e), 'layout_class': cls, 'mode': mode,
                     'operand_chains': [[(c['name'], c['idl'][:4] + ['...'] if len(c['idl']) > 4 else c['idl']) for c in project_obs(o)['chains']] for o in ops]})
